@@ -41,7 +41,7 @@ PLAN = {
     "C18": dict(quick=1600, thorough=40000, timeout=240), "C20": dict(quick=2400, thorough=60000, timeout=240),
     "C21": dict(quick=320, thorough=30000, timeout=300, extra=[("C21D", dict(quick=400, thorough=30000, timeout=300))]),
     # C40 = race-detector batch (C40) + cooperative-scheduler batch of the same programs (C40D)
-    "C40": dict(quick=64, thorough=6000, timeout=180, race=True, gomaxprocs=4, workers=8,
+    "C40": dict(quick=160, thorough=6000, timeout=180, race=True, gomaxprocs=4, workers=8,
                 extra=[("C40D", dict(quick=240, thorough=30000, timeout=300))]),
     "C30": dict(quick=1600, thorough=200000, timeout=240),
     "C22": dict(quick=6000, thorough=300000, timeout=90),
@@ -58,7 +58,7 @@ PLAN = {
     # (a corrupt IVF frame header makes ivfreader allocate up to 4 GiB per frame; cheap on an idle machine,
     # slow when many workers do it at once: fewer workers, generous watchdog)
     "C37": dict(quick=5000, thorough=500000, timeout=900, workers=8),
-    "C31": dict(quick=8000, thorough=2000000, timeout=60),
+    "C31": dict(quick=8000, thorough=600000, timeout=60),
 }
 DEFAULT_PLAN = dict(quick=200, thorough=5000, timeout=120)
 
